@@ -22,7 +22,9 @@
 \* The state-carrying elements of a content are given by Elements(c) (the harness builds the same objects):
 \*   base  "plain" : joints j1 (hinge) j2 (slide) j3 (free) j4 (hinge, after the free joint: qpos and dof addresses differ), actuators a1 (filter dynamics) a2, muscles u1 u2, mocap body mb
 \*   base  "multi" : the same plus a0 = PID actuator with TWO control inputs, declared before a1, a2
-\*   edit  "size"      : a geom size changes (no element added)        edit "mesh" : a mesh is rescaled
+\*   every base   : user meshes m1..m4 (vertices + faces in the spec) with scale signs +++, -++, +--, ++- (a mirrored
+\*                  mesh makes the compiler rewrite its faces: compiling the SAME spec again must give the same bytes)
+\*   edit  "size"      : a geom size changes (no element added)        edit "mesh" : m1 is rescaled AND mirrored
 \*   edit  "addchild"  : body with joint jx under the FIRST body (all later qpos/qvel addresses shift), actuator ax
 \*   edit  "delact"    : the first actuator of the base is deleted (all later ctrl/act addresses shift)
 EXTENDS Integers, Sequences, FiniteSets, TLC
